@@ -70,16 +70,24 @@ class C12(PropertyCheck):
             "tolerance (None,0..3) x every defect size 1..4 enumerated, plus random subsets of the 20 defects "
             "(dtype, ndim, width, non-tensor, alignment +-k, mixed 1-D/2-D, (R,w!=3), half-open start/end, "
             "overshoot k, start beyond T, reversed, negative token, missing files) and validate/fix/validate "
-            "histories; the info command in modes none/--strict/--fix k; sos/eos round trips over all "
-            "transcripts of length <= 2 (1-D and 2-D, empty included). non-trivial: >= 1 injected defect "
-            "or all three sub-directories in use; distinct by the whole case")
+            "histories (tolerances None, 0..3, 7, 100, True, False; the booleans on every repairable defect); "
+            "every view configuration of the validating data set (sos/eos by params or keyword, tokens_only, "
+            "suppress_alis, suppress_uttids, delta_order, do_mvn, ContextWindowDataSet) and every way of "
+            "pointing it at the files (5 prefixes x 5 suffixes, renamed / None sub-directories, subset_ids by "
+            "params or keyword, stray and decoy files, ids that sort differently from creation order, the empty "
+            "id); the info command in modes none/--strict/--fix [k] with all its options (--file-prefix/"
+            "-suffix, --*-subdir, output file or stdout) and class indices of 1..3 digits; reading every "
+            "utterance through SpectDataSet/LangDataSet and write_hyp (by index / id / custom name, default or "
+            "given directory, any dtype) / write_pdf; sos/eos round trips over all transcripts of length <= 2 "
+            "(1-D and 2-D, empty included); hypothesis stripping incl. sos == eos. non-trivial: >= 1 injected "
+            "defect or all three sub-directories in use; distinct by the whole case")
     assumptions = [
         "no GPU in the sandbox: the CUDA clauses (condition 1, repair 1) exist only as a device tag in the "
         "Lean model and are never exercised against the implementation",
         "torch.save/torch.load round-trip tensors (dtype, shape, content); a view saved with torch.save "
         "loads back as the view",
-        "utterance discovery (prefix/suffix filtering, intersection over sub-directories, sorted order) is "
-        "stated in python (c12_dirs.discovered), not in Lean",
+        "os.listdir of the temporary directory is what the data set sees (the listing is taken before the "
+        "data set is built and handed to the Lean model of the discovery)",
         "non-tensor alignment/reference files, 0-D / >=3-D references in info-only mode, float alignments "
         "in the info report and negative `fix` values are outside the model",
     ]
@@ -105,12 +113,124 @@ class C12(PropertyCheck):
                         yield {"kind": "sos_eos", "via": via, "tokens_only": to, "sos": sos, "eos": eos,
                                "ref": {"s2": [[x, i, i + 1] if i % 2 == 0 else [x, -1, -1]
                                               for i, x in enumerate(t)]}}
+                        # the symbols' VALUES in the boundary columns: only the token column marks a symbol
+                        if t and (sos is not None or eos is not None):
+                            a = sos if sos is not None else eos
+                            b = eos if eos is not None else sos
+                            yield {"kind": "sos_eos", "via": via, "tokens_only": to, "sos": sos, "eos": eos,
+                                   "ref": {"s2": [[x, min(a, b), max(a, b)] for x in t]}}
         # hypotheses that contain the symbols (strip semantics): correspondence only
-        for _ in range(40 if not big else 200):
+        for _ in range(60 if not big else 300):
             n = rng.randrange(0, 6)
             t = [rng.choice([0, 1, 7, 8]) for _ in range(n)]
-            yield {"kind": "hyp", "sos": rng.choice([None, 7]), "eos": rng.choice([None, 8]),
-                   "hyp": rng.choice([{"s1": t}, {"s2": [[x, -1, -1] for x in t]}])}
+            # sos == eos included (the start symbol is stripped first); any dtype (stored as long)
+            yield {"kind": "hyp", "sos": rng.choice([None, 7, 7, 8]), "eos": rng.choice([None, 8, 8, 7]),
+                   "dtype": rng.choice(["i64", "i64", "i32", "u8", "f32"]),
+                   "hyp": rng.choice([{"s1": t}, {"s2": [[x, -1, -1] for x in t]},
+                                      {"s2": [[x, i, i + 2] for i, x in enumerate(t)]},
+                                      # symbol values among the boundaries: not symbols
+                                      {"s2": [[x, rng.choice([-1, 0, 7, 8]), rng.choice([-1, 3, 7, 8])] for x in t]}])}
+
+        # --- every way of configuring the data set's view, on a well-formed and on a repairable directory
+        views = [{"suppress_alis": True}, {"suppress_uttids": False}, {"suppress_alis": True, "suppress_uttids": False},
+                 {"delta_order": 1}, {"delta_order": 2, "do_mvn": True}, {"do_mvn": True}, {"cls": "context"},
+                 {"cls": "context", "suppress_uttids": False, "context_left": 1, "context_right": 2},
+                 {"sos": 5, "eos": 6, "sos_via": "kwarg"}, {"sos": -2, "eos": None, "tokens_only": True},
+                 {"sos": 5, "eos": 6, "tokens_only": True, "suppress_alis": True, "suppress_uttids": False,
+                  "delta_order": 1}]
+        for cfg in views:
+            for defects in ([], ["half_end", "ali_long"], [rng.choice(D.DEFECT_NAMES)]):
+                base = D.base_dir(rng, rng.randrange(1, 4), True, rng.choice([1, 2]) if not defects else 2)
+                if "delta_order" in cfg:
+                    for u in base["utts"]:  # deltas of an integer / empty feature matrix are not defined
+                        u["feat"]["dtype"] = rng.choice(["f32", "i64", "f16"])
+                d = D.inject(rng, base, defects, 1)
+                case = self._mk_history(d, [None, 1, None])
+                case["cfg"] = dict(cfg)
+                yield case
+        # --- the deprecated boolean tolerances (True = 1, False = strict) on every repairable defect
+        for nm in ("half_start", "half_end", "ali_long", "overshoot", "ali_dtype", "ref_dtype"):
+            for fix in (True, False):
+                base = D.base_dir(rng, rng.randrange(1, 3), True, 2)
+                d = D.inject(rng, base, [nm], 1)
+                for u in d["utts"]:
+                    for s_ in ("ali", "ref"):
+                        if u[s_]["dtype"] not in ("i64",):
+                            u[s_]["dtype"] = rng.choice(D.NARROW)
+                yield self._mk_history(d, [fix, None])
+        # --- companion sub-directories that exist but hold no file that counts (not in use)
+        for s_, kind in (("ali", "prefix-only"), ("ref", "suffix-only"), ("ali", "neither"), ("ref", "neither")):
+            base = D.base_dir(rng, 2, s_ != "ali", 2 if s_ != "ref" else 0)
+            lay = {"prefix": "p-", "suffix": ".pt"}
+            nm = {"prefix-only": "p-u0.tmp", "suffix-only": "u0.pt", "neither": "README"}[kind]
+            lay["stray"] = [[s_, nm], [s_, "p-"], ["feat", "u1.pt"]]
+            case = self._mk_history(base, [None, 1])
+            case["layout"] = lay
+            yield case
+            info = {"kind": "info", "utts": copy.deepcopy(base["utts"]), "dirs": base["dirs"], "defects": [],
+                    "mode": "strict", "fix": None, "layout": copy.deepcopy(lay)}
+            yield info
+        for i in range(12 if not big else 60):
+            base = D.base_dir(rng, rng.randrange(1, 5), True, rng.choice([1, 2]))
+            d = D.inject(rng, base, rng.choice([[], ["overshoot"], ["ali_long"], ["missing_ali"], ["missing_ref"]]), 1)
+            if i % 2 == 0:
+                case = self._mk_history(d, [rng.choice([None, 1]), None])
+                case["layout"] = D.rand_layout(rng, case)
+                if i % 4 == 0:
+                    case["cfg"] = {"subset_via": "kwarg"}
+            else:
+                case = {"kind": "info", "utts": d["utts"], "dirs": d["dirs"], "defects": d["defects"],
+                        "mode": rng.choice(["info", "strict", "fix"]), "fix": None, "stdout": i % 3 == 0}
+                case["layout"] = D.rand_layout(rng, case, cli=True)
+                if case["mode"] == "info":
+                    self._tame_for_info(case)
+            yield case
+        for n, mode in ((0, "info"), (0, "strict"), (2, "info"), (2, "fix")):
+            d = D.base_dir(rng, n, True, 2)
+            yield {"kind": "info", "utts": d["utts"], "dirs": d["dirs"], "defects": [], "mode": mode, "fix": None,
+                   "explicit_defaults": True, "stdout": n == 2}
+        # --- reading and writing through the data set (SpectDataSet / LangDataSet / ContextWindow is read-only here)
+        for i in range(70 if not big else 500):
+            ref_kind = rng.choice([0, 1, 2, 2])
+            d = D.base_dir(rng, rng.choice([1, 2, 3, 4]), rng.random() < 0.6, ref_kind)
+            if d["utts"] and rng.random() < 0.3:
+                u = rng.choice(d["utts"])
+                s_ = rng.choice(["ali", "ref"])
+                if sum(1 for v in d["utts"] if v[s_] is not None) > 1:
+                    u[s_] = None
+            case = {"kind": "dataset", "utts": d["utts"], "dirs": d["dirs"], "defects": []}
+            lang = ref_kind != 0 and rng.random() < 0.3
+            if lang:
+                case["lang"] = True
+            if rng.random() < 0.75:
+                case["layout"] = D.rand_layout(rng, case)
+                if lang and case["layout"].get("sub", {}).get("ref", "ref") is None:
+                    del case["layout"]["sub"]["ref"]
+            # token ids 10..13, so that sos/eos can take values that occur as segment boundaries (0..T, -1..-3)
+            for u in d["utts"]:
+                r_ = u.get("ref")
+                if r_ is not None and "d1" in r_:
+                    r_["d1"] = [x + 10 for x in r_["d1"]]
+                if r_ is not None and "d2" in r_:
+                    r_["d2"] = [[row[0] + 10] + row[1:] for row in r_["d2"]]
+            cfg = {"sos": rng.choice([None, 7, -2, 0, 1, -1]), "eos": rng.choice([None, 8, -3, 2, 3]),
+                   "tokens_only": rng.random() < 0.4}
+            if rng.random() < 0.4:
+                cfg["suppress_uttids"] = False
+            if not lang:
+                if rng.random() < 0.3:
+                    cfg["suppress_alis"] = True
+                if rng.random() < 0.3:
+                    cfg["sos_via"] = "kwarg"
+                if rng.random() < 0.3:
+                    cfg["subset_via"] = "kwarg"
+                if rng.random() < 0.4:
+                    cfg["warn"] = True
+            case["cfg"] = cfg
+            case["hyp"] = {"by": rng.choice(["idx", "name", "custom"]), "dir": rng.choice(["default", "explicit"]),
+                           "dtype": rng.choice(["i64", "i32", "f32"]), "via": rng.choice(["getitem", "tuple"]),
+                           "pdf_dtype": rng.choice(["f64", "f32", "f16", "i32"])}
+            yield case
 
         # --- single defects: every defect x tolerance x size, on 1..3 utterances
         sizes = [1, 2, 3, 4]
@@ -160,27 +280,57 @@ class C12(PropertyCheck):
             c = rng.random()
             if c < 0.55:
                 case = self._mk_history(d, self._calls(rng))
-                if rng.random() < 0.25:
-                    case["cfg"] = {"sos": rng.choice([None, 5, 5]), "eos": rng.choice([None, 6, 6]),
-                                   "tokens_only": rng.random() < 0.3}
-                if rng.random() < 0.2:
-                    case["layout"] = {"prefix": rng.choice(["", "p-"]), "suffix": rng.choice([".pt", ".x", ""]),
-                                      "stray": [["feat", "zz.notes"], ["ref", "README"]]}
-                    if case["layout"]["suffix"] == "" and case["layout"]["prefix"] == "":
-                        case["layout"]["stray"] = []
+                if rng.random() < 0.3:
+                    case["layout"] = D.rand_layout(rng, case)
+                if rng.random() < 0.3:
+                    case["cfg"] = self._rand_cfg(rng, case)
                 yield case
             else:
                 mode = rng.choice(["info", "strict", "fix", "fix"])
                 case = {"kind": "info", "utts": d["utts"], "dirs": d["dirs"], "defects": d["defects"],
-                        "mode": mode, "fix": rng.choice([None, 0, 1, 2, 3]) if mode == "fix" else None}
+                        "mode": mode, "fix": rng.choice([None, 0, 1, 2, 3, 7]) if mode == "fix" else None}
+                if rng.random() < 0.35:
+                    D.big_classes(rng, case)
+                if rng.random() < 0.3:
+                    case["layout"] = D.rand_layout(rng, case, cli=True)
+                if rng.random() < 0.2:
+                    case["stdout"] = True
                 if mode == "info":
                     # without validation the report is only specified on data that iterates cleanly
                     self._tame_for_info(case)
                 yield case
 
+    def _rand_cfg(self, rng, case):
+        """A random view configuration of the data set that validates the directory."""
+        sub = case.get("layout", {}).get("sub", {})
+        if rng.random() < 0.12 and "ref" not in sub and "ref" not in sub.values():
+            cfg = {"cls": "context"}
+            if rng.random() < 0.5:
+                cfg.update(context_left=rng.randrange(0, 3), context_right=rng.randrange(0, 3), reverse=rng.random() < 0.5)
+        else:
+            cfg = {}
+            if rng.random() < 0.6:
+                cfg.update(sos=rng.choice([None, 5, 5, -2]), eos=rng.choice([None, 6, 6, -3]),
+                           tokens_only=rng.random() < 0.3)
+                if rng.random() < 0.3:
+                    cfg["sos_via"] = "kwarg"
+            if rng.random() < 0.3:
+                cfg["suppress_alis"] = True
+        if rng.random() < 0.3:
+            cfg["suppress_uttids"] = False
+        if rng.random() < 0.25:
+            cfg["delta_order"] = rng.choice([1, 2])
+        if rng.random() < 0.15:
+            cfg["do_mvn"] = True
+        if rng.random() < 0.3:
+            cfg["subset_via"] = "kwarg"
+        if rng.random() < 0.3:
+            cfg["warn"] = True
+        return cfg
+
     def _calls(self, rng):
         c = rng.random()
-        k = rng.choice([0, 1, 2, 3])
+        k = rng.choice([0, 1, 2, 3, 0, 1, 2, 3, 7, 100])
         if c < 0.3:
             return [k, None]
         if c < 0.5:
@@ -214,14 +364,40 @@ class C12(PropertyCheck):
 
     # ------------------------------------------------------------------ implementation
     def _dataset(self, root, case):
+        """The data set the case describes: every way of configuring the view (sos/eos through params
+        or the deprecated keywords, tokens_only, suppress_alis, suppress_uttids, feature transforms, the
+        ContextWindowDataSet subclass) and of pointing it at the files (prefix, suffix, sub-directory
+        names, subset_ids through params or the deprecated keyword)."""
         from pydrobert.torch import data
         cfg = case.get("cfg", {})
         layout = case.get("layout", {})
-        params = data.SpectDataParams(sos=cfg.get("sos"), eos=cfg.get("eos"))
+        kw = {"file_prefix": layout.get("prefix", ""), "file_suffix": layout.get("suffix", ".pt"),
+              "warn_on_missing": cfg.get("warn", False), "suppress_uttids": cfg.get("suppress_uttids", True)}
+        for s_ in D.SUBDIRS:
+            if s_ in layout.get("sub", {}):
+                kw[s_ + "_subdir"] = layout["sub"][s_]
+        pkw = {}
+        if layout.get("subset"):
+            if cfg.get("subset_via", "params") == "params":
+                pkw["subset_ids"] = list(layout["subset"])
+            else:
+                kw["subset_ids"] = set(layout["subset"])
+        for k in ("delta_order", "do_mvn"):
+            if k in cfg:
+                pkw[k] = cfg[k]
+        if cfg.get("cls") == "context":
+            kw.pop("ref_subdir", None)
+            for k in ("context_left", "context_right", "reverse"):
+                if k in cfg:
+                    pkw[k] = cfg[k]
+            return data.ContextWindowDataSet(root, params=data.ContextWindowDataParams(**pkw), **kw)
+        if cfg.get("sos_via", "params") == "params":
+            pkw["sos"], pkw["eos"] = cfg.get("sos"), cfg.get("eos")
+        else:
+            kw["sos"], kw["eos"] = cfg.get("sos"), cfg.get("eos")
         return data.SpectDataSet(
-            root, params=params, suppress_alis=False, tokens_only=cfg.get("tokens_only", False),
-            file_prefix=layout.get("prefix", ""), file_suffix=layout.get("suffix", ".pt"),
-            warn_on_missing=False)
+            root, params=data.SpectDataParams(**pkw), suppress_alis=cfg.get("suppress_alis", False),
+            tokens_only=cfg.get("tokens_only", False), **kw)
 
     def run_impl(self, case):
         self._stash.pop(self.key(case), None)
@@ -233,25 +409,32 @@ class C12(PropertyCheck):
                 return self._run_info(case)
             if case["kind"] == "sos_eos":
                 return self._run_sos_eos(case)
+            if case["kind"] == "dataset":
+                return self._run_dataset(case)
             return self._run_hyp(case)
 
-    def _untouched(self, root, case, ids, snap0):
-        """Files that do not belong to a discovered utterance must be byte-identical."""
+    def _untouched(self, root, case, ids, snap0, used=None, new_dirs=("out",)):
+        """Files that do not belong to a discovered utterance in a sub-directory in use must be
+        byte-identical; no file or directory may appear or disappear."""
         layout = case.get("layout", {})
         mine = {D.fname(layout, n) for n in ids}
+        inuse = {D.subname(layout, "feat")}
+        for s_ in ("ali", "ref"):
+            if used is None or used[s_]:
+                inuse.add(D.subname(layout, s_))
         snap = D.snapshot(root, case)
         for s, files in snap0.items():
             for nm, b in files.items():
-                if s in D.SUBDIRS and nm in mine:
+                if s in inuse and nm in mine:
                     continue
                 if snap.get(s, {}).get(nm) != b:
                     return False
         for s, files in snap.items():
-            if s in ("out",):
+            if s in new_dirs:
                 continue
             if set(files) != set(snap0.get(s, {})):
                 return False
-        return set(snap) - {"out"} == set(snap0)
+        return set(snap) - set(new_dirs) == set(snap0)
 
     def _run_history(self, case):
         from pydrobert.torch import data
@@ -259,28 +442,43 @@ class C12(PropertyCheck):
         with tmpdir() as root:
             D.write_dir(root, case)
             snap0 = D.snapshot(root, case)
+            lst = D.listing(root, case)
             ds = self._dataset(root, case)
             obs = {"utt_ids": list(ds.utt_ids), "has_ali": bool(ds.has_ali), "has_ref": bool(ds.has_ref)}
-            if obs["utt_ids"] != ids:
+            self._stash[self.key(case)] = {"discover": lst}
+            if obs["utt_ids"] != ids or obs["has_ali"] != used["ali"] or obs["has_ref"] != used["ref"]:
                 return obs  # discovery differs: nothing below is comparable
             init = D.read_utts(root, case, ids, used)
             dig0 = D.feat_digest(root, case, ids)
             steps = []
             for fix in case["calls"]:
                 st = {}
-                try:
-                    data.validate_spect_data_set(ds, fix)
-                    st["ok"] = True
-                    st["err"] = None
-                except Exception as e:
-                    st["ok"] = False
-                    st["err"] = type(e).__name__
+                with warnings.catch_warnings(record=True) as wlist:
+                    warnings.simplefilter("always")
+                    try:
+                        data.validate_spect_data_set(ds, fix)
+                        st["ok"] = True
+                        st["err"] = None
+                    except Exception as e:
+                        st["ok"] = False
+                        st["err"] = type(e).__name__
+                # "any of these changes will be warned of": the repairs announce themselves
+                st["n_warn"] = sum(1 for w in wlist if not issubclass(w.category, (DeprecationWarning, FutureWarning)))
                 st["disk"] = D.read_utts(root, case, ids, used)
                 st["feat_content_same"] = D.feat_digest(root, case, ids) == dig0
-                st["others_untouched"] = self._untouched(root, case, ids, snap0)
+                st["others_untouched"] = self._untouched(root, case, ids, snap0, used)
                 steps.append(st)
             obs["steps"] = steps
-            self._stash[self.key(case)] = {"init": init, "disks": [s["disk"] for s in steps]}
+            view = (ds.tokens_only, ds.sos, ds.eos, ds.suppress_alis, ds.suppress_uttids)
+            cfg = case.get("cfg", {})
+            obs["view_kept"] = list(view) == [
+                False if cfg.get("cls") == "context" else cfg.get("tokens_only", False),
+                None if cfg.get("cls") == "context" else cfg.get("sos"),
+                None if cfg.get("cls") == "context" else cfg.get("eos"),
+                False if cfg.get("cls") == "context" else cfg.get("suppress_alis", False),
+                cfg.get("suppress_uttids", True)] and (ds.transform is not None) == bool(
+                    cfg.get("delta_order") or cfg.get("do_mvn"))
+            self._stash[self.key(case)] = {"init": init, "disks": [s["disk"] for s in steps], "discover": lst}
             return obs
 
     def _run_info(self, case):
@@ -289,19 +487,30 @@ class C12(PropertyCheck):
         with tmpdir() as root:
             D.write_dir(root, case)
             snap0 = D.snapshot(root, case)
+            lst = D.listing(root, case)
             init = D.read_utts(root, case, ids, used)
+            layout = case.get("layout", {})
+            to_stdout = bool(case.get("stdout"))
             os.makedirs(os.path.join(root, "out"))
             out = os.path.join(root, "out", "info.txt")
-            args = [root, out, "--file-suffix", ".pt"]
+            args = [root] + ([] if to_stdout else [out])
+            # every option of the command; the defaults are left out when the layout is the default
+            if "layout" in case or case.get("explicit_defaults"):
+                args += ["--file-prefix=" + layout.get("prefix", ""), "--file-suffix=" + layout.get("suffix", ".pt")]
+                for s_ in D.SUBDIRS:
+                    if s_ in layout.get("sub", {}) or case.get("explicit_defaults"):
+                        args.append(f"--{s_}-subdir=" + D.subname(layout, s_))
             if case["mode"] == "strict":
                 args.append("--strict")
             elif case["mode"] == "fix":
-                args.append("--fix")
                 if case["fix"] is not None:
-                    args.append(str(case["fix"]))
+                    args += ["--fix", str(case["fix"])]
+                else:
+                    args.append("--fix")
             obs = {}
+            buf = io.StringIO()
             try:
-                with contextlib.redirect_stderr(io.StringIO()):
+                with contextlib.redirect_stderr(io.StringIO()), contextlib.redirect_stdout(buf):
                     rc = command_line.get_torch_spect_data_dir_info(args)
                 obs["ok"] = rc == 0
                 obs["err"] = None if rc == 0 else f"exit {rc}"
@@ -309,18 +518,23 @@ class C12(PropertyCheck):
                 obs["ok"] = False
                 obs["err"] = type(e).__name__
             obs["disk"] = D.read_utts(root, case, ids, used)
-            obs["others_untouched"] = self._untouched(root, case, ids, snap0)
+            obs["others_untouched"] = self._untouched(root, case, ids, snap0, used)
             if obs["ok"]:
-                rep, keys = {}, []
-                with open(out) as f:
-                    for line in f:
-                        k, v = line.split()
-                        keys.append(k)
-                        pre, _, idx = k.rpartition("_")
-                        if pre in ("count", "segs", "rcount", "rsegs") and idx.isdigit():
-                            k = f"{pre}_{int(idx)}"
-                        rep[k] = int(v)
+                rep, keys, lines = {}, [], []
+                if to_stdout:
+                    text = buf.getvalue()
+                    obs["no_file"] = not os.path.exists(out)
+                else:
+                    with open(out) as f:
+                        text = f.read()
+                    obs["stdout_silent"] = buf.getvalue() == ""
+                for line in text.splitlines():
+                    k, v = line.split()
+                    keys.append(k)
+                    lines.append([k, int(v)])
+                    rep[k] = int(v)
                 obs["report"] = rep
+                obs["lines"] = lines
                 obs["keys_sorted"] = keys == sorted(keys)
                 # zero padding: class keys of one family have equal length, hence sort by index
                 fam = {}
@@ -330,7 +544,7 @@ class C12(PropertyCheck):
                         fam.setdefault(pre, []).append(idx)
                 obs["padding_ok"] = all(len({len(i) for i in v}) == 1 and [int(i) for i in v] == list(range(len(v)))
                                         for v in fam.values())
-            self._stash[self.key(case)] = {"init": init, "disk": obs["disk"]}
+            self._stash[self.key(case)] = {"init": init, "disk": obs["disk"], "discover": lst}
             return obs
 
     def _seq_tensor(self, seq):
@@ -372,13 +586,118 @@ class C12(PropertyCheck):
             obs["written"] = self._seq_desc(back)
             return obs
 
+    def _run_dataset(self, case):
+        """Reading every utterance of a (well-formed) directory through a configured data set and
+        writing hypotheses / pdfs back: which files are used, what the tuple holds, where the output
+        goes."""
+        import torch
+        from pydrobert.torch import data
+        cfg = case.get("cfg", {})
+        layout = case.get("layout", {})
+        lang = bool(case.get("lang"))
+        ids, used = D.discovered(case)
+        with tmpdir() as root:
+            D.write_dir(root, case)
+            snap0 = D.snapshot(root, case)
+            lst = D.listing(root, case)
+            if lang:
+                rdir = os.path.join(root, D.subname(layout, "ref"))
+                lst = {"prefix": lst["prefix"], "suffix": lst["suffix"], "subset": lst["subset"],
+                       "feat": lst["ref"] or [], "ali": None, "ref": None}
+                names = {u["name"] for u in case["utts"] if u.get("ref") is not None}
+                ids = sorted(names & set(layout["subset"]) if layout.get("subset") else names)
+                pkw = {"sos": cfg.get("sos"), "eos": cfg.get("eos")}
+                if layout.get("subset"):
+                    pkw["subset_ids"] = list(layout["subset"])
+                ds = data.LangDataSet(rdir, params=data.LangDataParams(**pkw),
+                                      file_prefix=layout.get("prefix", ""), file_suffix=layout.get("suffix", ".pt"),
+                                      suppress_uttids=cfg.get("suppress_uttids", True),
+                                      tokens_only=cfg.get("tokens_only", True))
+                obs = {"utt_ids": list(ds.utt_ids)}
+            else:
+                ds = self._dataset(root, case)
+                obs = {"utt_ids": list(ds.utt_ids), "has_ali": bool(ds.has_ali), "has_ref": bool(ds.has_ref)}
+            self._stash[self.key(case)] = {"discover": lst, "refs": []}
+            if obs["utt_ids"] != ids or (not lang and (obs["has_ali"] != used["ali"] or obs["has_ref"] != used["ref"])):
+                return obs
+            obs["len"] = len(ds)
+            stored = {n: u for n, u in ((u["name"], u) for u in case["utts"])}
+            hy = case.get("hyp", {})
+            hyp_dir = os.path.join(root, "my_hyps") if hy.get("dir") == "explicit" or lang else None
+            pdf_dir = os.path.join(root, "my_pdfs") if hy.get("dir") == "explicit" else None
+            items, refs = [], []
+            for idx, name in enumerate(ids):
+                tup = ds[idx] if hy.get("via", "getitem") == "getitem" else ds.get_utterance_tuple(idx)
+                tup = tup if isinstance(tup, tuple) else (tup,)
+                it = {"len": len(tup)}
+                pos = 0
+                if not lang:
+                    f = tup[0]
+                    it["feat"] = D.desc_feat(f)
+                    it["feat_same"] = repr(f.tolist()) == repr(D.make_feat(stored[name]["feat"]).tolist())
+                    pos = 1
+                    if not cfg.get("suppress_alis", False):
+                        a = tup[pos]
+                        it["ali"] = None if a is None else D.desc_ali(a)
+                        pos += 1
+                r = tup[pos]
+                pos += 1
+                it["ref"] = None if r is None else self._seq_desc(r)
+                it["ref_dtype"] = None if r is None else D.dtype_tag(r.dtype)
+                it["uttid"] = tup[pos] if not cfg.get("suppress_uttids", True) else None
+                sref = stored[name].get("ref") if (lang or used["ref"]) else None
+                refs.append(None if sref is None else ({"s1": sref["d1"]} if "d1" in sref else {"s2": sref["d2"]}))
+                if r is not None:
+                    # write what was read back as a hypothesis: by index, by id, or under another name
+                    by = hy.get("by", "idx")
+                    utt = idx if by == "idx" else (name if by == "name" else "special-" + name)
+                    out_name = name if by != "custom" else "special-" + name
+                    h = r.to(D.torch_dtype(hy.get("dtype", "i64")))
+                    if hyp_dir is None:
+                        ds.write_hyp(utt, h)
+                    else:
+                        ds.write_hyp(utt, h, hyp_dir)
+                    hp = os.path.join(hyp_dir or os.path.join(root, "hyp"), D.fname(layout, out_name))
+                    if os.path.exists(hp):
+                        back = torch.load(hp)
+                        it["written"] = self._seq_desc(back)
+                        it["written_dtype"] = D.dtype_tag(back.dtype)
+                    else:
+                        it["written"] = "no file " + os.path.relpath(hp, root)
+                if not lang:
+                    T = tup[0].shape[0]
+                    pdf = (torch.arange(T * 2, dtype=torch.float64).reshape(T, 2) / 4 - 1).to(
+                        D.torch_dtype(hy.get("pdf_dtype", "f64")))
+                    utt = idx if hy.get("by", "idx") == "idx" else name
+                    if pdf_dir is None:
+                        ds.write_pdf(utt, pdf)
+                    else:
+                        ds.write_pdf(utt, pdf, pdf_dir)
+                    pp = os.path.join(pdf_dir or os.path.join(root, "pdfs"), D.fname(layout, name))
+                    if os.path.exists(pp):
+                        back = torch.load(pp)
+                        it["pdf_ok"] = (back.dtype == torch.float32 and back.device.type == "cpu"
+                                        and back.shape == pdf.shape and bool((back == pdf.float()).all()))
+                    else:
+                        it["pdf_ok"] = "no file " + os.path.relpath(pp, root)
+                items.append(it)
+            obs["items"] = items
+            obs["others_untouched"] = self._untouched(root, dict(case, utts=[]), [], snap0, None,
+                                                      ("hyp", "pdfs", "my_hyps", "my_pdfs"))
+            self._stash[self.key(case)] = {"discover": lst, "refs": refs}
+            return obs
+
     def _run_hyp(self, case):
         import torch
         from pydrobert.torch._datasets import _write_hyp
         with tmpdir() as root:
             p = os.path.join(root, "h.pt")
-            _write_hyp(self._seq_tensor(case["hyp"]), p, case["sos"], case["eos"])
-            return {"written": self._seq_desc(torch.load(p))}
+            h = self._seq_tensor(case["hyp"]).to(D.torch_dtype(case.get("dtype", "i64")))
+            # the model is given the values the tensor holds (a narrow dtype wraps -1 around)
+            self._stash[self.key(case)] = {"hyp": self._seq_desc(h.long())}
+            _write_hyp(h, p, case["sos"], case["eos"])
+            back = torch.load(p)
+            return {"written": self._seq_desc(back), "dtype": D.dtype_tag(back.dtype)}
 
     # ------------------------------------------------------------------ model
     def model_request(self, case):
@@ -386,23 +705,44 @@ class C12(PropertyCheck):
             return {"op": "c12.sos_eos", "case": {"ref": case["ref"], "sos": case["sos"], "eos": case["eos"],
                                                   "tokens_only": case["tokens_only"]}}
         if case["kind"] == "hyp":
-            return {"op": "c12.write_hyp", "case": {"hyp": case["hyp"], "sos": case["sos"], "eos": case["eos"]}}
+            st = self._stash.get(self.key(case)) or {"hyp": case["hyp"]}
+            return {"op": "c12.write_hyp", "case": {"hyp": st["hyp"], "sos": case["sos"], "eos": case["eos"]}}
         st = self._stash.get(self.key(case))
         if st is None:
             return None
+        if case["kind"] == "dataset":
+            cfg = case.get("cfg", {})
+            return {"op": "c12.dataset", "case": {
+                "discover": st["discover"], "refs": st["refs"], "sos": cfg.get("sos"), "eos": cfg.get("eos"),
+                "tokens_only": cfg.get("tokens_only", True if case.get("lang") else False)}}
         if case["kind"] == "history":
-            return {"op": "c12.history", "case": {"utts": st["init"], "calls": [norm_fix(f) for f in case["calls"]],
-                                                  "impl_disks": st["disks"]}}
+            return {"op": "c12.history", "case": {"utts": st.get("init", []),
+                                                  "calls": [norm_fix(f) for f in case["calls"]] if "init" in st else [],
+                                                  "impl_disks": st.get("disks", []), "discover": st["discover"]}}
         return {"op": "c12.info", "case": {"utts": st["init"], "mode": case["mode"], "fix": case["fix"],
-                                           "impl_disk": st["disk"]}}
+                                           "impl_disk": st["disk"], "discover": st["discover"]}}
 
     # ------------------------------------------------------------------ correspondence
     def compare(self, case, impl, model):
         if "error" in impl:
             return [f"harness/implementation raised outside a validation call: {impl['error']}: {impl.get('message')}"]
         out = []
+        disc = model.get("discover") if isinstance(model, dict) else None
+        if disc is not None and "utt_ids" in impl:
+            for k in ("utt_ids", "has_ali", "has_ref"):
+                if k in impl and impl[k] != disc[k]:
+                    out.append(f"discovery: {k}: impl={impl[k]} model={disc[k]}")
+            if out:
+                return out
+        if case["kind"] == "dataset":
+            for i, it in enumerate(impl.get("items", [])):
+                if it["ref"] != model["loaded"][i]:
+                    out.append(f"utterance {i}: _load_ref: impl={it['ref']} model={model['loaded'][i]}")
+                if it.get("written") != model["written"][i]:
+                    out.append(f"utterance {i}: write_hyp: impl={it.get('written')} model={model['written'][i]}")
+            return out
         if case["kind"] == "history":
-            for i, (a, b) in enumerate(zip(impl["steps"], model["steps"])):
+            for i, (a, b) in enumerate(zip(impl.get("steps", []), model["steps"])):
                 if a["ok"] != b["ok"]:
                     out.append(f"call {i} (fix={case['calls'][i]}): impl {'returns' if a['ok'] else 'raises ' + str(a['err'])}, "
                                f"model {'returns' if b['ok'] else 'raises ' + str(b['err'])}")
@@ -415,8 +755,8 @@ class C12(PropertyCheck):
                 out.append(f"info {case['mode']} fix={case['fix']}: impl ok={impl['ok']} ({impl['err']}), model ok={model['ok']} ({model['err']})")
             elif impl["disk"] != model["disk"]:
                 out.append(f"info: directory afterwards differs: impl={impl['disk']} model={model['disk']}")
-            elif impl["ok"] and impl["report"] != model["report"]:
-                out.append(f"info: report differs: impl={impl['report']} model={model['report']}")
+            elif impl["ok"] and impl["lines"] != model["lines"]:
+                out.append(f"info: output differs: impl={impl['lines']} model={model['lines']}")
         elif case["kind"] == "sos_eos":
             if impl["loaded"] != model["loaded"]:
                 out.append(f"_load_ref: impl={impl['loaded']} model={model['loaded']}")
@@ -435,21 +775,34 @@ class C12(PropertyCheck):
             # the FIRST eos on is removed; the Lean `writeHyp` is that statement
             if "error" in impl:
                 return [(f"_write_hyp raised {impl['error']}: {impl.get('message')}", None)]
+            fails = []
             if model is not None and impl["written"] != model["written"]:
-                return [(f"_write_hyp wrote {impl['written']}, documented stripping of {case['hyp']} with "
-                         f"sos={case['sos']} eos={case['eos']} gives {model['written']}", "C12.write_hyp.strip")]
-            return []
+                fails.append((f"_write_hyp wrote {impl['written']}, documented stripping of {case['hyp']} with "
+                              f"sos={case['sos']} eos={case['eos']} gives {model['written']}", "C12.write_hyp.strip"))
+            if impl["dtype"] != "i64":
+                fails.append((f"_write_hyp stored dtype {impl['dtype']}, documented hyp.cpu().long()",
+                              "C12.write_hyp.dtype"))
+            return fails
         if kind == "sos_eos":
             return self._pred_sos_eos(case, impl, model)
+        if kind == "dataset":
+            return self._pred_dataset(case, impl, model)
         if "error" in impl:
             return [(f"raised outside a validation call: {impl['error']}: {impl.get('message')}", None)]
         fails = []
         if kind == "history":
-            ids, _ = D.discovered(case)
+            ids, used = D.discovered(case)
             if impl["utt_ids"] != ids:
-                return [(f"utterance discovery: data set lists {impl['utt_ids']}, files present for {ids}", None)]
+                return [(f"utterance discovery: data set lists {impl['utt_ids']}, files present for {ids}",
+                         "C12.discovery.utt_ids")]
+            if impl["has_ali"] != used["ali"] or impl["has_ref"] != used["ref"]:
+                return [(f"utterance discovery: has_ali/has_ref = {impl['has_ali']}/{impl['has_ref']}, "
+                         f"sub-directories in use: {used}", "C12.discovery.in_use")]
             if model is None:
                 return fails
+            if not impl.get("view_kept", True):
+                fails.append(("validation changed the data set's configuration (sos/eos/tokens_only/suppress_*/"
+                              "transform)", "C12.validate.view_changed"))
             st = self._stash.get(self.key(case))
             before = st["init"] if st else None
             for i, (a, o) in enumerate(zip(impl["steps"], model["oracle"])):
@@ -458,6 +811,10 @@ class C12(PropertyCheck):
                                          "validate")
                 if not a["feat_content_same"]:
                     fails.append((f"call {i}: feature content changed", None))
+                if a["ok"] and "n_warn" in a and (a["n_warn"] > 0) != (a["disk"] != before):
+                    fails.append((f"call {i} (fix={fix}): {a['n_warn']} warning(s) although the directory was "
+                                  f"{'changed' if a['disk'] != before else 'left as it was'} (documented: every "
+                                  f"repair is warned of)", "C12.validate.warnings"))
                 if not a["others_untouched"]:
                     fails.append((f"call {i}: a file outside the data set's utterances was modified", None))
                 before = a["disk"]
@@ -478,6 +835,12 @@ class C12(PropertyCheck):
         if not impl["others_untouched"]:
             fails.append(("info: a file outside the data set's utterances was modified", None))
         if impl["ok"]:
+            if impl.get("no_file") is False or impl.get("stdout_silent") is False:
+                fails.append(("info: output went to the wrong place (file given -> nothing on stdout; no file "
+                              "given -> stdout only)", "C12.info.output_place"))
+            if impl["report"] == model["impl_recount"] and impl["lines"] != model["impl_recount_lines"]:
+                fails.append((f"report lines are not the recount in sorted key order: {impl['lines']} vs "
+                              f"{model['impl_recount_lines']}", "C12.info.order"))
             if impl["report"] != model["impl_recount"]:
                 diff = {k: (impl["report"].get(k), model["impl_recount"].get(k))
                         for k in set(impl["report"]) | set(model["impl_recount"])
@@ -517,6 +880,77 @@ class C12(PropertyCheck):
                                   f"C12.{entry}.undocumented_change"))
         return fails
 
+    def _pred_dataset(self, case, impl, model):
+        if "error" in impl:
+            return [(f"reading/writing through the data set raised {impl['error']}: {impl.get('message')}",
+                     "C12.dataset.raises")]
+        cfg = case.get("cfg", {})
+        lang = bool(case.get("lang"))
+        layout = case.get("layout", {})
+        if lang:
+            names = {u["name"] for u in case["utts"] if u.get("ref") is not None}
+            ids = sorted(names & set(layout["subset"]) if layout.get("subset") else names)
+            used = {"ali": False, "ref": True}
+        else:
+            ids, used = D.discovered(case)
+        if impl["utt_ids"] != ids:
+            return [(f"utterance discovery: data set lists {impl['utt_ids']}, files present for {ids}",
+                     "C12.discovery.utt_ids")]
+        if not lang and (impl["has_ali"] != used["ali"] or impl["has_ref"] != used["ref"]):
+            return [(f"utterance discovery: has_ali/has_ref = {impl['has_ali']}/{impl['has_ref']}, "
+                     f"sub-directories in use: {used}", "C12.discovery.in_use")]
+        fails = []
+        if impl["len"] != len(ids):
+            fails.append((f"len(data_set) = {impl['len']}, {len(ids)} utterances", None))
+        stored = {u["name"]: u for u in case["utts"]}
+        sos, eos = cfg.get("sos"), cfg.get("eos")
+        tokens_only = cfg.get("tokens_only", True if lang else False)
+        for i, (name, it) in enumerate(zip(ids, impl["items"])):
+            u = stored[name]
+            want_len = (1 if lang else 2 + (0 if cfg.get("suppress_alis", False) else 1)) + \
+                (0 if cfg.get("suppress_uttids", True) else 1)
+            if it["len"] != want_len:
+                fails.append((f"utterance {i}: tuple of {it['len']} entries, documented {want_len}", None))
+            if not lang:
+                if not it["feat_same"] or it["feat"] != u["feat"]:
+                    fails.append((f"utterance {i} ({name!r}): features handed out are not the stored ones",
+                                  "C12.dataset.wrong_file"))
+                if not cfg.get("suppress_alis", False):
+                    want = u["ali"] if used["ali"] else None
+                    if it["ali"] != want:
+                        fails.append((f"utterance {i} ({name!r}): alignment handed out {it['ali']}, stored {want}",
+                                      "C12.dataset.wrong_file"))
+            if not cfg.get("suppress_uttids", True) and it["uttid"] != name:
+                fails.append((f"utterance {i}: uttid {it['uttid']!r}, expected {name!r}", None))
+            sref = u.get("ref") if used["ref"] else None
+            if sref is None:
+                if it["ref"] is not None:
+                    fails.append((f"utterance {i}: a reference is handed out although ref/ is not in use", None))
+                continue
+            two_d = "d2" in sref and not tokens_only
+            bare = sref["d2"] if two_d else (sref["d1"] if "d1" in sref else [r[0] for r in sref["d2"]])
+            wrap = (lambda x: [x, -1, -1]) if two_d else (lambda x: x)
+            exp = ([wrap(sos)] if sos is not None else []) + bare + ([wrap(eos)] if eos is not None else [])
+            key = "s2" if two_d else "s1"
+            if it["ref"] != {key: exp}:
+                fails.append((f"utterance {i} ({name!r}): reference read with sos={sos} eos={eos} "
+                              f"tokens_only={tokens_only} is {it['ref']}, expected {exp}", "C12.load_ref.symbols"))
+            if it["ref_dtype"] != "i64":
+                fails.append((f"utterance {i}: loaded reference has dtype {it['ref_dtype']}", None))
+            if it.get("written") != {key: bare}:
+                fails.append((f"utterance {i} ({name!r}): written hypothesis {it.get('written')} is not the bare "
+                              f"transcript {bare} under <hyp dir>/<prefix><utt><suffix>", "C12.write_hyp.roundtrip"))
+            elif it.get("written_dtype") != "i64":
+                fails.append((f"utterance {i}: hypothesis stored as {it.get('written_dtype')}, documented long",
+                              "C12.write_hyp.dtype"))
+            if not lang and it.get("pdf_ok") is not True:
+                fails.append((f"utterance {i} ({name!r}): write_pdf did not store pdf.cpu().float() under "
+                              f"<pdfs dir>/<prefix><utt><suffix>: {it.get('pdf_ok')}", "C12.write_pdf"))
+        if not impl["others_untouched"]:
+            fails.append(("reading/writing through the data set modified the data directory or wrote outside "
+                          "hyp/ and pdfs/", "C12.dataset.touched"))
+        return fails
+
     def _pred_sos_eos(self, case, impl, model):
         if "error" in impl:
             return [(f"loading a reference with sos={case['sos']} eos={case['eos']} raised {impl['error']}: "
@@ -547,10 +981,40 @@ class C12(PropertyCheck):
             return bool(case.get("defects")) or len(case["dirs"]) == 3
         if case["kind"] == "sos_eos":
             return case["sos"] is not None or case["eos"] is not None
+        if case["kind"] == "dataset":
+            return len(case["utts"]) > 1 or "layout" in case
         return True
 
     def tags(self, case, impl):
         t = [f"kind={case['kind']}"]
+        if case["kind"] in ("history", "info", "dataset"):
+            lay = case.get("layout")
+            if lay is not None:
+                t.append("layout: any")
+                t.append(f"layout: prefix={lay.get('prefix', '')!r} suffix={lay.get('suffix', '.pt')!r}")
+                for k_, v_ in sorted(lay.get("sub", {}).items()):
+                    t.append(f"layout: {k_}_subdir={'None' if v_ is None else 'renamed'}")
+                if lay.get("subset"):
+                    t.append("layout: subset_ids")
+                if lay.get("stray"):
+                    t.append("layout: stray/decoy files")
+                if any(u["name"] == "" for u in case["utts"]):
+                    t.append("layout: empty utterance id")
+            for k_, v_ in sorted(case.get("cfg", {}).items()):
+                if k_ in ("sos", "eos"):
+                    v_ = "set" if v_ is not None else None
+                if k_.startswith("context_") or k_ == "reverse":
+                    continue
+                t.append(f"cfg: {k_}={v_}")
+        if case["kind"] == "dataset":
+            t.append("dataset: " + ("LangDataSet" if case.get("lang") else "SpectDataSet"))
+            for k_, v_ in sorted(case.get("hyp", {}).items()):
+                t.append(f"dataset: write {k_}={v_}")
+            t.append(f"n_utts={len(case['utts'])}")
+        if case["kind"] == "hyp":
+            t.append(f"hyp dtype={case.get('dtype', 'i64')}")
+            if case["sos"] is not None and case["sos"] == case["eos"]:
+                t.append("hyp sos==eos")
         if case["kind"] in ("history", "info"):
             t.append(f"n_utts={len(case['utts'])}")
             t.append(f"n_defects={min(len(case.get('defects', [])), 5)}")
@@ -570,6 +1034,12 @@ class C12(PropertyCheck):
                 t.append("non-default prefix/suffix")
         if case["kind"] == "info":
             t.append(f"info mode={case['mode']} fix={case['fix']}")
+            if case.get("stdout"):
+                t.append("info to stdout")
+            if isinstance(impl, dict) and impl.get("report"):
+                w = max((len(k.rpartition("_")[2]) for k in impl["report"]
+                         if k.rpartition("_")[0] in ("count", "rcount")), default=0)
+                t.append(f"info class-index width={w}")
             if isinstance(impl, dict) and "ok" in impl:
                 t.append("info " + ("accept" if impl["ok"] else "reject"))
         if case["kind"] == "sos_eos":
@@ -579,7 +1049,39 @@ class C12(PropertyCheck):
         return t
 
     def shrink(self, case):
+        if case["kind"] == "dataset":
+            for i in range(len(case["utts"])):
+                c = copy.deepcopy(case)
+                del c["utts"][i]
+                yield c
+            for k in ("layout", "hyp", "lang"):
+                if k in case:
+                    c = copy.deepcopy(case)
+                    del c[k]
+                    yield c
+            for k in case.get("cfg", {}):
+                c = copy.deepcopy(case)
+                del c["cfg"][k]
+                yield c
+            for k in case.get("layout", {}):
+                c = copy.deepcopy(case)
+                del c["layout"][k]
+                yield c
+            return
         if case["kind"] in ("history", "info"):
+            for k in ("stdout", "explicit_defaults"):
+                if case.get(k):
+                    c = copy.deepcopy(case)
+                    del c[k]
+                    yield c
+            for k in case.get("cfg", {}):
+                c = copy.deepcopy(case)
+                del c["cfg"][k]
+                yield c
+            for k in case.get("layout", {}):
+                c = copy.deepcopy(case)
+                del c["layout"][k]
+                yield c
             for i in range(len(case["utts"])):
                 c = copy.deepcopy(case)
                 del c["utts"][i]
